@@ -479,7 +479,14 @@ class BoundedExecutor:
         # Submit the task to the underlying executor.
         # Pass the current context to ensure child threads persist the
         # parent thread's context.
-        future = ExecutorFuture(self._executor.submit(task, get_context()))
+        try:
+            future = ExecutorFuture(self._executor.submit(task, get_context()))
+        except BaseException:
+            # There is no future to hang the release on, for example when a
+            # KeyboardInterrupt passes through the NonThreadedExecutor or
+            # the executor was shut down, so give the capacity back here.
+            release_callback()
+            raise
         # Add the Semaphore.release() callback to the future such that
         # it is invoked once the future completes.
         future.add_done_callback(release_callback)
